@@ -338,10 +338,13 @@ fn read_data_from_stream<F: Read + Seek>(
 }
 
 /// Returns an error if no stream in a file of this version can have the given
-/// length (the FAT cannot number more than MAX_REGULAR_SECTOR sectors).
+/// length: the FAT cannot number more than MAX_REGULAR_SECTOR sectors, and a
+/// version 3 directory entry records only the low 32 bits of the length (a
+/// longer stream would come back truncated when the file is next opened).
 fn check_stream_len(version: Version, stream_len: u64) -> io::Result<()> {
-    let max_stream_len = (consts::MAX_REGULAR_SECTOR as u64)
-        * (version.sector_len() as u64);
+    let max_stream_len = ((consts::MAX_REGULAR_SECTOR as u64)
+        * (version.sector_len() as u64))
+        .min(version.stream_len_mask());
     if stream_len > max_stream_len {
         invalid_input!(
             "Cannot resize stream to {} bytes (maximum is {} bytes)",
@@ -374,6 +377,9 @@ fn write_data_to_stream<F: Read + Write + Seek>(
     }
     let new_stream_len =
         old_stream_len.max(buf_offset_from_start + buf.len() as u64);
+    if new_stream_len > old_stream_len {
+        check_stream_len(minialloc.version(), new_stream_len)?;
+    }
     let new_start_sector = if old_start_sector == consts::END_OF_CHAIN {
         // Case 1: The stream has no existing chain.  The stream is empty, and
         // we are writing at the start.
